@@ -23,8 +23,9 @@ func init() {
 		Explanation: "C10.lang: L(roman.pattern) equals the reference language built from the statement (any number of M; per position five? one{0,4} | one five | one ten; case-insensitive), decided on DFAs with a shortest witness on difference. " +
 			"C10.same: Valid and DefaultParser share checkInputLength and match the same pattern; after a successful match the parser has no error return. " +
 			"C10.case: the set of byte constants against which raw input bytes are compared in the value function (propagated through the groups table and ±lowerShift) is closed under ASCII case swap and contained in the regexp alphabet (or the input is case-normalised first). " +
-			"C10.groups: groups = (100,D,M),(10,L,C),(1,V,X) in capture order; thousands = len(capture 1) × 1000. C10.empty, S-ERRZERO, S-WRAP, C18.L for package roman.",
-		NotDecided:  []string{"parseGroup's arithmetic per group shape ((4+l)*unit, l*unit) is value-level and not evaluated"},
+			"C10.groups: groups = (100,D,M),(10,L,C),(1,V,X) in capture order, group i evaluated on capture i+2, results summed; thousands = len(capture 1) × 1000. " +
+			"C10.value: the value function is extracted as a decision table over (length, first two bytes vs five/ten symbol in either case); that table is evaluated inside the checker on every word of each capture group's finite language against an independent roman evaluator. C10.empty, S-ERRZERO, S-WRAP, typed errors, limit strictness for package roman.",
+		NotDecided:  []string{"uint64 overflow of len(capture 1) × 1000 (needs > 1.8e16 M, beyond any input limit)"},
 		Assumptions: []string{"regexp/syntax compiles the pattern to the automaton regexp executes"},
 		Technique:   "regular-language equality on DFAs + constant-set propagation over go/ssa",
 	})
